@@ -45,12 +45,14 @@ def oracle_counts(dense, trajs, lag, S, sliding):
             conds.append(dense[i][j] == acc)
             total = total + dense[i][j]
     obs.append(('entry-ij-is-the-number-of-lagged-pairs-within-one-trajectory', conj(conds)))
-    if sliding:
+    if sliding and S <= 6:        # (implied by the cell-wise clause; stated separately only where the solver can add S*S cells)
         obs.append(('total-is-sum-of-max(0,len-lag)', total == sum(max(0, len(tr) - lag) for tr in trajs)))
     return obs
 
 
-def counts_job(lengths, lag, S, sliding=True, form='ragged', explicit=True, order=None):
+def counts_job(lengths, lag, S, sliding=True, form='ragged', explicit=True, order=None, dtype='int64'):
+    # dtype: element type of the state assignments (narrow integer types are common for state ids)
+    dt = np.dtype(dtype)
     tm = loader.load('enspara.msm.transition_matrices')
     ra = loader.load('enspara.ra.ra')
     lengths = list(lengths)
@@ -59,11 +61,11 @@ def counts_job(lengths, lag, S, sliding=True, form='ragged', explicit=True, orde
         rows = vals_rows
         if form == 'ragged':
             if concrete:
-                return ra.RaggedArray([np.array(r, dtype=int) for r in rows])
-            return ra.RaggedArray([funcs.np_array(r, dtype=int) for r in rows])
+                return ra.RaggedArray([np.array(r, dtype=dt) for r in rows])
+            return ra.RaggedArray([funcs.np_array(r, dtype=dt) for r in rows])
         L = max(lengths)
         padded = [list(r) + [-1] * (L - len(r)) for r in rows]
-        return np.array(padded, dtype=int) if concrete else funcs.np_array(padded, dtype=int)
+        return np.array(padded, dtype=dt) if concrete else funcs.np_array(padded, dtype=dt)
 
     def path(ctx):
         trajs = [[core.fresh_int('s', 0, S - 1) for _ in range(n)] for n in lengths]
@@ -83,7 +85,7 @@ def counts_job(lengths, lag, S, sliding=True, form='ragged', explicit=True, orde
         def witness(model):
             cv = [[int(ev(model, x)) for x in tr] for tr in trajs]
             out = {'inputs': {'trajectories': cv, 'lag': lag, 'max_n_states': S if explicit else None,
-                              'sliding_window': sliding, 'form': form}}
+                              'sliding_window': sliding, 'form': form, 'element_type': str(dt)}}
             with core.concrete_mode():
                 try:
                     Cc = tm.assigns_to_counts(build(cv, True), lag_time=lag, max_n_states=S if explicit else None,
@@ -142,4 +144,9 @@ def jobs(tier):
             if sum(v) <= 5:
                 add('%s,lag=%d,S=%d,inferred' % (list(v), lag, min(S, 2)), lengths=v, lag=lag, S=2, explicit=False,
                     form='padded')
+    # narrow element types with enough states that start*n_states+end does not fit them (int8: 12 states): counts must not
+    # depend on the element type of the assignments
+    for form_ in ('ragged', 'padded'):
+        add('[2, 3],lag=1,S=12,int8,%s' % form_, lengths=(2, 3), lag=1, S=12, sliding=True, form=form_, dtype='int8')
+    add('[3],lag=1,S=12,int8,ragged', lengths=(3,), lag=1, S=12, sliding=True, form='ragged', dtype='int8')
     return J
